@@ -205,6 +205,22 @@ def run(ctx):
         judge(ctx, t, v, an)
         if T.contains(t, 'address') and T.comparable(t):
             judge(ctx, t, v, an, spelled_default=True)
+    # tickets: contents types that share their outermost constructor but differ below it, alternating within one process
+    kt1 = P.address_from_str('KT1BEqzn5Wx8uJrZNvuS9DVHmLvG9td3fDLi')
+    contents = [(T.NAT, [0, 7]), (T.STRING, ['', 'gold']), (T.pair(T.NAT, T.STRING), [(1, 'a')]), (T.pair(T.STRING, T.NAT), [('a', 1)]),
+                (T.option(T.NAT), [None, ('Some', 3)]), (T.option(T.STRING), [('Some', 'x')]), (T.or_(T.NAT, T.STRING), [('L', 1), ('R', 's')]),
+                (T.or_(T.STRING, T.NAT), [('L', 's'), ('R', 1)]), (T.pair(T.NAT, T.STRING, T.BYTES), [(1, ('a', b'\x00'))]),
+                (T.pair(T.pair(T.NAT, T.NAT), T.STRING), [((1, 2), 'a')])]
+    for rnd in range(2):
+        for k, (ct, vals) in enumerate(contents):
+            if ctx.mine(0):      # all in one process: the point is the order in which the types are met
+                for c in vals:
+                    for wrap in (lambda x: x, T.option, lambda x: T.pair(T.NAT, x)):
+                        tt = wrap(T.ticket(ct))
+                        tv = (kt1, c, 5 + rnd)
+                        v = tv if tt[0] == 'ticket' else (('Some', tv) if tt[0] == 'option' else (9, tv))
+                        ctx.count('ticket_values')
+                        judge(ctx, tt, v)
     # values with the shapes real contracts use: recorded arguments and storage parts of the mainnet corpus
     from rv.gen import corpus as C
     for k, (label, texpr, t, v, src) in enumerate(C.typed_values()):
